@@ -368,6 +368,10 @@ pub fn c08_oracle(a: &BTreeMap<String, BTreeSet<Rec>>, obs: &Obs) -> Option<(Str
         let mut prev: Option<u64> = None;
         for r in &oq.recs {
             if !set.map(|s| s.contains(r)).unwrap_or(false) {
+                // one of the complete, checksummed frames that the generator embeds in some payloads (model::FRAME_LIKE)
+                if name == "zz" && (8_000_000..8_000_000 + (1 << 20)).contains(&r.pos) && r.len == 8 {
+                    return Some(("embedded-frame".into(), format!("a CRC-valid frame that was only ever part of a record's *payload* was delivered as a record (queue \"zz\", position {})", r.pos)));
+                }
                 return Some(("invented-record".into(), format!("queue (name {} B) returned a record at position {} ({} B) that no append to this queue ever wrote", name.len(), r.pos, r.len)));
             }
             if prev.map(|p| r.pos <= p).unwrap_or(false) {
@@ -567,7 +571,13 @@ pub fn evaluate_damage(prop: &str, case: &Case, fault: &Fault) -> Vec<Failure> {
             let hit = if ops.len() == 1 { entry_hit(&parsed, &ops[0]).cloned() } else { None };
             let policy = d.world.policy;
             let ev = judge(prop, Some(&d), &d.names, policy, &case.knobs, &damaged, hit.as_ref(), &format!("damage {:?}", ops));
-            ev.failures.into_iter().filter(|f| f.prop == prop).collect()
+            let route = embedded_frame_route(&damaged);
+            ev.failures.into_iter().filter(|f| f.prop == prop).map(|mut f| {
+                if f.clause.starts_with("embedded-frame") && !f.clause.contains("-via-") {
+                    f.clause = f.clause.replacen("embedded-frame", &format!("embedded-frame-{route}"), 1);
+                }
+                f
+            }).collect()
         }
         _ => Vec::new(),
     }
@@ -675,7 +685,16 @@ pub fn damage_then(prop: &str, d: &Driver, case: &Case, image: &Image, ops: &[Da
     }
     if let Ok(obs2) = cd.world.observe() {
         if let Some((clause, msg)) = c08_oracle(&a, &obs2) {
-            out.push(fail("C08", &format!("{clause}-after-continuation"), d.steps.len(), format!("damage {:?}, open, then {} and a restart: {msg}", ops, cont.iter().map(|o| o.short()).collect::<Vec<_>>().join(", "))));
+            // same question as in `embedded_frame_route`, on the image the continuation left behind: here the
+            // documented reader gets inside an old payload because the damage shortened the log and the
+            // continuation wrote over only the beginning of what used to follow
+            let clause = if clause == "embedded-frame" {
+                cd.world.close();
+                if embedded_frame_route(&cd.world.image()) == "via-trusted-length" { "embedded-frame-via-stale-tail".to_string() } else { "embedded-frame-via-other-route-after-continuation".to_string() }
+            } else {
+                format!("{clause}-after-continuation")
+            };
+            out.push(fail("C08", &clause, d.steps.len(), format!("damage {:?}, open, then {} and a restart: {msg}", ops, cont.iter().map(|o| o.short()).collect::<Vec<_>>().join(", "))));
         }
     }
     out
@@ -698,4 +717,37 @@ pub fn aimed_damage_then(p: &Parsed, d: &Driver, rng: &mut Rng) -> Option<(Vec<D
     let len = if need >= 0 && rng.chance(3, 4) { need as u32 } else { rng.below(2000) as u32 };
     let cont = vec![Op::Append { q, pos: None, lens: vec![len], uid: 5_000_001 + 2 * rng.below(1000) as u32 }, Op::Restart { policy: None }];
     Some((ops, cont))
+}
+
+/// How the reader came to parse inside a payload. Walks the damaged image the way the frame reader is documented
+/// to (invalid type byte or a length that crosses the block end: drop the rest of the block; checksum mismatch:
+/// step over the frame *using its length field*, which no checksum covers, and go on in the same block) and asks
+/// whether that walk meets a checksum-valid frame at an offset that was not a frame boundary before the damage.
+/// "via-trusted-length": it does (the recorded finding). "via-other-route": it does not, so the code under test
+/// got inside the payload some other way.
+pub fn embedded_frame_route(after: &Image) -> &'static str {
+    for (_, data) in crate::walparse::wal_files(after) {
+        for b in 0..data.len() / BLOCK {
+            let block = &data[b * BLOCK..(b + 1) * BLOCK];
+            let mut c = 0usize;
+            while BLOCK - c >= HDR {
+                let hdr = &block[c..c + HDR];
+                if hdr.iter().all(|&x| x == 0) {
+                    return "via-other-route"; // end of the log for the documented reader
+                }
+                let crc = u32::from_le_bytes(hdr[0..4].try_into().unwrap());
+                let len = u16::from_le_bytes(hdr[4..6].try_into().unwrap()) as usize;
+                if !(1..=4).contains(&hdr[6]) || c + HDR + len > BLOCK {
+                    break;
+                }
+                let payload = &block[c + HDR..c + HDR + len];
+                // the frames embedded in payloads by model::payload are the only ones that end like this
+                if crate::walparse::frame_crc(hdr[6], payload) == crc && payload.ends_with(b"FORGEDzz") {
+                    return "via-trusted-length";
+                }
+                c += HDR + len;
+            }
+        }
+    }
+    "via-other-route"
 }
